@@ -232,7 +232,10 @@ CLAIMS = {
              "1.5 op x; taken from the generated module) apply the IEEE operation to the right operands in the right order for exact "
              "floats and for ints whose conversion to double is exact (the fast path is taken for ints only below 2**53, with the sign "
              "re-applied), raise ZeroDivisionError for `c / 0`, and delegate everything else to CPython's own PyNumber / comparison "
-             "functions. Kernel: float modulo and float-constant binops.",
+             "functions. Proof (FP theory, same fmod symbol) that the FloorDivFloat helper is bit-identical to CPython's float_floor_div "
+             "for ALL doubles a (incl. inf / nan) and b != 0, and that the C function the working-tree compiler emits for `a // b` on C "
+             "doubles raises ZeroDivisionError for b == 0 and otherwise returns that value (C's floor(a / b) under cdivision=True). "
+             "Kernel: float modulo, float floor division and float-constant binops.",
         note="Trusted: dv C front end, z3's FP theory, the C11 contract of fmod/copysign, the float_rem transcription (validated "
              "against float.__mod__ each run); for PyFloatBinop the IEEE operations and the int -> double conversion are uninterpreted "
              "functions shared by subject and specification (ASSUMED per converted term: not NaN, sign, zero only for 0, below 2**53 "
